@@ -163,6 +163,21 @@ func runCase(run *lib.Run, c int64, base string) {
 	// the backlog counts too: every round already spent at the height left a proposal, its parts and
 	// 2n votes behind that the suffix has to deliver to everybody before anything new can happen
 	B := bound(n) + int(maxRound)*n*60
+	// ... and so does what the Byzantine validators signed for this height during the prefix (long
+	// thorough prefixes leave more than a thousand equivocating votes behind): the suffix delivers
+	// each of them to every node, some again after a round change, before the nodes can move on
+	byzBacklog, reals := 0, 0
+	for _, e := range net.Pool {
+		if e.Byz && e.H >= target {
+			byzBacklog++
+		}
+	}
+	for _, nd := range net.Nodes {
+		if nd.Real {
+			reals++
+		}
+	}
+	B += 3 * byzBacklog * reals
 	before := net.Steps
 	steps, ok := adv.FairSuffix(target, B)
 	_ = steps
@@ -263,7 +278,7 @@ func main() {
 		return
 	}
 	run := lib.NewRun(prop, "exploration")
-	run.SetRule("seeded cases: 1-7 real ConsensusStates, Byzantine subset < 1/3, a random adversarial prefix of 0..1500 (quick) / 0..4000 (thorough) actions under nine profiles (balanced, premature timeouts, crash/restart, Byzantine-heavy, lossy, partitions, equivocation template, lock+crash template, silence with only timeouts), then a fair suffix (everything produced is delivered to everyone; timeouts fire in schedule order when nothing else is possible); required: every honest validator commits two further heights within B = 6000 + 1500*N^2 + 60*N*(highest round at the end of the prefix) logical steps each. Non-trivial = distinct action trace with a prefix of more than 50 actions.")
+	run.SetRule("seeded cases: 1-7 real ConsensusStates, Byzantine subset < 1/3, a random adversarial prefix of 0..1500 (quick) / 0..4000 (thorough) actions under nine profiles (balanced, premature timeouts, crash/restart, Byzantine-heavy, lossy, partitions, equivocation template, lock+crash template, silence with only timeouts), then a fair suffix (everything produced is delivered to everyone; timeouts fire in schedule order when nothing else is possible); required: every honest validator commits two further heights within B = 6000 + 1500*N^2 + 60*N*(highest round at the end of the prefix) + 3*(Byzantine messages of the current height)*(real nodes) logical steps each. Non-trivial = distinct action trace with a prefix of more than 50 actions.")
 	run.Assume("liveness is decided as bounded progress after a finite adversarial prefix; unbounded 'eventually' is out of reach of any finite run", "the harness plays ideal gossip in the suffix: every message any node processed, or a Byzantine key signed, is offered to every node", "deadlocks between the real receive/timeout/gossip goroutines are not reachable in the single-threaded engine (steps that hang hit the worker watchdog = inconclusive)")
 	run.RunWorkers(16, time.Duration(lib.Pick(20, 60))*time.Minute, nil, nil)
 	runLive(run)
